@@ -250,7 +250,13 @@ func (v *c11Val) send(c *p2p.Conn) error {
 		if v.str {
 			return c.SendString(string(v.data))
 		}
-		return c.SendData(v.data)
+		// the caller's buffer is its own again once SendData has returned: it is overwritten straight away
+		buf := append([]byte(nil), v.data...)
+		err := c.SendData(buf)
+		for i := range buf {
+			buf[i] ^= 0xa5
+		}
+		return err
 	case "sizes":
 		return c.SendInputSizes(v.sizes)
 	case "flush":
